@@ -145,3 +145,74 @@ def judge(traces, chk, kind='pipeline'):
         else:
             ok += 1
     return ok
+
+
+# ----------------------------------------------------------------------------- sessions: several runs in one process
+def _run_result(eqf, netf, services, extra=()):
+    """fresh load + design + planning; per-request CRC of the reported result"""
+    from gnpy.tools.json_io import load_equipments_and_configs, load_network
+    from gnpy.tools.worker_utils import designed_network, planning
+    from harness.gnpy_util import EX
+    eq = load_equipments_and_configs(EX / eqf, list(extra), [])
+    net = load_network(EX / netf, eq)
+    net, _, _ = designed_network(eq, net)
+    out = planning(net, eq, services)
+    return [[str(r.path_id), digest(r.json)] for r in out[5]]
+
+
+def _simple_services(pairs, trx_type, mode, tag):
+    return {'path-request': [
+        {'request-id': f'{tag}{k}', 'source': s, 'destination': d, 'src-tp-id': s, 'dst-tp-id': d, 'bidirectional': bool(k % 2),
+         'path-constraints': {'te-bandwidth': {'technology': 'flexi-grid', 'trx_type': trx_type, 'trx_mode': mode,
+                                               'spacing': 50e9, 'path_bandwidth': 100e9}}}
+        for k, (s, d) in enumerate(pairs)]}
+
+
+def record_session(name, tier='quick'):
+    """A, B, A again (and B again in the thorough tier), each from freshly loaded files in ONE process: whatever a run leaves
+    behind in the process (module-level caches, memoised loaders, class attributes, SimParams) must not reach the next one"""
+    from gnpy.tools.json_io import load_json
+    from harness.gnpy_util import EX
+    shipped = load_json(EX / 'meshTopologyExampleV2_services.json')
+    keep = None
+    a_serv = {'path-request': [r for r in shipped['path-request'] if keep is None or str(r['request-id']) in keep],
+              'synchronization': [s for s in shipped.get('synchronization', [])
+                                  if keep is None or set(map(str, s['svec']['request-id-number'])) <= keep]}
+    b_serv = _simple_services([('trx Site_A', 'trx Site_D'), ('trx Site_D', 'trx Site_A'), ('trx Site_G', 'trx Site_L')],
+                              'Voyager', 'mode 1', 'mb')
+    x_serv = _simple_services([('trx Lannion_CAS', 'trx Brest_KLA'), ('trx Vannes_KBE', 'trx Lorient_KMA'),
+                               ('trx Brest_KLA', 'trx Rennes_STA')], 'vendorA_trx-type1', 'mode 1', 'x')
+    specs = [('A', ('eqpt_config.json', 'meshTopologyExampleV2.json', a_serv)),
+             ('B', ('eqpt_config_multiband.json', 'multiband_example_network.json', b_serv)),
+             ('X', ('eqpt_config.json', 'meshTopologyExampleV2.xls', x_serv)),
+             ('A', ('eqpt_config.json', 'meshTopologyExampleV2.json', a_serv)),
+             ('B', ('eqpt_config_multiband.json', 'multiband_example_network.json', b_serv))]
+    if tier != 'quick':
+        specs += [specs[2], specs[0]]
+    import copy
+    runs = []
+    for inp, (eqf, netf, serv) in specs:
+        runs.append(dict(input=inp, res=_run_result(eqf, netf, copy.deepcopy(serv))))
+    return dict(name=name, runs=runs)
+
+
+def judge_sessions(sessions, chk, kind='pipeline'):
+    data = '\n'.join(json.dumps(s) for s in sessions) + '\n'
+    res = tlc.run('Trace_Session', extra_files={'trace.ndjson': data}, env={'TRACE_FILE': 'trace.ndjson'}, workers=1,
+                  timeout=600, tag='session-trace')
+    if not res.ok:
+        raise Machinery(f'Trace_Session failed: {res.error or res.violated}\n{res.out[-2000:]}')
+    chk.states += res.distinct
+    chk.transitions += res.generated
+    verdicts = {v['name']: v for v in res.emitted}
+    ok = 0
+    for s in sessions:
+        v = verdicts.get(s['name'])
+        if v is None:
+            raise Machinery(f'Trace_Session: no verdict for {s["name"]}')
+        if v['viol']:
+            for clause in v['viol']:
+                chk.violation(f'{kind}|{clause}', dict(session=s['name'], runs=s['runs']))
+        else:
+            ok += 1
+    return ok
